@@ -419,6 +419,142 @@ func checkLib(c libCase) string {
 }
 
 // ---------------------------------------------------------------------------
+// retained results: a serialisation stays what it was when it was produced,
+// whatever the library encodes afterwards (Marshal hands out a []byte: it must
+// not alias storage that a later encode reuses).
+
+type retStep struct {
+	Op string `json:"op"` // keep | marshal | marshal-go | query
+	I  int    `json:"i"`  // index into Vals (taken modulo their number)
+	Q  string `json:"q"`  // query for op "query"
+}
+
+type retCase struct {
+	Vals  []univ.V  `json:"vals"`
+	Steps []retStep `json:"steps"`
+}
+
+var retQueryNames = []string{"tojson", "tostring", `"\(.)"`, "@json", `@json "\(.)"`, "error", "[.]|tojson", "{a:.}|tostring"}
+
+var retQueries = map[string]*gojq.Code{}
+
+func init() {
+	for _, q := range retQueryNames {
+		retQueries[q] = run.MustCompile(q)
+	}
+}
+
+type retained struct {
+	b    []byte // exactly what Marshal returned, never copied
+	s    string // for results of tojson & co: the returned string itself
+	copy string // private copy taken at production time
+	v    any
+	by   string
+	step int
+}
+
+func (r *retained) now() string {
+	if r.b != nil {
+		return string(r.b)
+	}
+	return r.s
+}
+
+func checkRetained(c retCase) string {
+	if len(c.Vals) == 0 {
+		return "bad case"
+	}
+	var kept []*retained
+	recheck := func(step int, what string) string {
+		for _, r := range kept {
+			if cur := r.now(); cur != r.copy {
+				msg := checkText(r.v, cur, false)
+				if msg == "" {
+					msg = "it still reads back equal, but is not the text that was returned"
+				}
+				return fmt.Sprintf("the result of %s(%s) obtained at step %d was %q; after step %d (%s) the same result reads %q: %s",
+					r.by, clip(univ.Show(r.v), 120), r.step, clip(r.copy, 160), step, what, clip(cur, 160), msg)
+			}
+		}
+		return ""
+	}
+	for n, st := range c.Steps {
+		v := c.Vals[((st.I%len(c.Vals))+len(c.Vals))%len(c.Vals)].X
+		what := st.Op
+		switch st.Op {
+		case "keep":
+			b, err := gojq.Marshal(v)
+			if err != nil {
+				return "Marshal: " + err.Error()
+			}
+			r := &retained{b: b, copy: string(b), v: v, by: "Marshal", step: n}
+			if b == nil {
+				r.b = []byte{}
+			}
+			if msg := checkText(v, r.copy, false); msg != "" {
+				return "Marshal: " + msg
+			}
+			kept = append(kept, r)
+		case "marshal":
+			if _, err := gojq.Marshal(v); err != nil {
+				return "Marshal: " + err.Error()
+			}
+		case "marshal-go":
+			done := make(chan struct{})
+			go func() {
+				defer close(done)
+				gojq.Marshal(v)
+			}()
+			<-done
+		case "query":
+			code := retQueries[st.Q]
+			if code == nil {
+				return "bad query " + st.Q
+			}
+			what = st.Q
+			res := run.Exec(code, v, 0, 4)
+			if res.Err != nil {
+				_ = res.Err.Error() // formatting the message serialises the value
+			}
+			if st.Q == "tojson" || st.Q == "@json" {
+				if len(res.Vals) != 1 {
+					return fmt.Sprintf("%s: err=%v outputs=%d", st.Q, res.Err, len(res.Vals))
+				}
+				sres, ok := res.Vals[0].(string)
+				if !ok {
+					return fmt.Sprintf("%s gave a %T", st.Q, res.Vals[0])
+				}
+				if msg := checkText(v, sres, false); msg != "" {
+					return st.Q + ": " + msg
+				}
+				kept = append(kept, &retained{s: sres, copy: strings.Clone(sres), v: v, by: st.Q, step: n})
+			}
+		default:
+			return "bad op " + st.Op
+		}
+		if msg := recheck(n, what); msg != "" {
+			return msg
+		}
+	}
+	// at the end: every retained result is still well-formed, still reads back
+	// as its value, and still agrees with tojson of the same value
+	for _, r := range kept {
+		cur := r.now()
+		if msg := checkText(r.v, cur, false); msg != "" {
+			return fmt.Sprintf("at the end the result of %s obtained at step %d: %s", r.by, r.step, msg)
+		}
+		tj, msg := runStr("tojson", r.v)
+		if msg != "" {
+			return msg
+		}
+		if !sameJSON(cur, tj) {
+			return fmt.Sprintf("at the end the result of %s(%s) obtained at step %d reads %q, tojson of the same value gives %q", r.by, clip(univ.Show(r.v), 120), r.step, clip(cur, 160), clip(tj, 160))
+		}
+	}
+	return ""
+}
+
+// ---------------------------------------------------------------------------
 // getting an arbitrary Go value out of the command: a JSON "recipe" on stdin
 // and a fixed jq function that rebuilds the value from it.
 
@@ -1347,6 +1483,12 @@ func replayCase(sub string, raw json.RawMessage) string {
 			return "bad replay: " + err.Error()
 		}
 		return checkCLI(c)
+	case "retained":
+		var c retCase
+		if err := json.Unmarshal(raw, &c); err != nil {
+			return "bad replay: " + err.Error()
+		}
+		return checkRetained(c)
 	case "yaml", "str2-yaml":
 		var c yamlCase
 		if err := json.Unmarshal(raw, &c); err != nil {
@@ -1531,6 +1673,57 @@ func TestC12(t *testing.T) {
 		rec.Class("float")
 		if msg := checkLib(c); msg != "" {
 			t.Fatalf("%s", rec.Fail("float", c, "%s", msg))
+		}
+	})
+
+	// (R2b) retained results: histories of library encodes; everything handed
+	// out earlier must stay byte-for-byte what it was
+	retVal := rapid.Custom(func(t *rapid.T) univ.V {
+		switch rapid.IntRange(0, 5).Draw(t, "retshape") {
+		case 0:
+			return univ.V{X: genScalar(t, gopt{bad: true})}
+		case 1: // sized strings and arrays, so that a later encode overwrites a part only
+			n := rapid.SampledFrom([]int{0, 1, 3, 7, 20, 63, 64, 65, 200, 1000}).Draw(t, "retlen")
+			if rapid.Bool().Draw(t, "retarr") {
+				a := make([]any, n)
+				for i := range a {
+					a[i] = i
+				}
+				return univ.V{X: a}
+			}
+			return univ.V{X: strings.Repeat(rapid.SampledFrom([]string{"a", "\n", "\u00e9", "\""}).Draw(t, "retpiece"), n)}
+		default:
+			return univ.V{X: genVal(t, gopt{bad: true, depth: 3, width: 4, longStrs: true}, 3)}
+		}
+	})
+	retStepGen := rapid.Custom(func(t *rapid.T) retStep {
+		st := retStep{I: rapid.IntRange(0, 7).Draw(t, "i")}
+		switch rapid.IntRange(0, 9).Draw(t, "op") {
+		case 0, 1, 2:
+			st.Op = "keep"
+		case 3, 4:
+			st.Op = "marshal"
+		case 5:
+			st.Op = "marshal-go"
+		default:
+			st.Op = "query"
+			st.Q = rapid.SampledFrom(retQueryNames).Draw(t, "q")
+		}
+		return st
+	})
+	rec.Rapid(t, "retained", rec.Scale(30000, 600000), func(t *rapid.T) {
+		c := retCase{Vals: rapid.SliceOfN(retVal, 2, 8).Draw(t, "vals")}
+		c.Steps = append([]retStep{{Op: "keep", I: 0}}, rapid.SliceOfN(retStepGen, 1, 16).Draw(t, "steps")...)
+		rec.Eval()
+		rec.Class("retained")
+		for _, st := range c.Steps[1:] {
+			rec.Class("retained/op:" + st.Op)
+		}
+		b, _ := json.Marshal(c)
+		rec.NT("retained|" + strconv.FormatUint(evid.Hash(string(b)), 36))
+		rec.Sample(c)
+		if msg := checkRetained(c); msg != "" {
+			t.Fatalf("%s", rec.Fail("retained", c, "%s", msg))
 		}
 	})
 
